@@ -96,10 +96,29 @@ construct by what it does. The changes (all in `rules/`), roughly by frequency:
 After these changes: **40 of 40 refactorings are silent** and all seeded changes of round 1 are still reported by their own
 property's check. The corpus is re-run after every rule change (`ls benign/*.diff | xargs ... scripts/benign.sh`).
 
+**Second benign round (48 more refactorings + 1 rename patch).** After the round-2 rules were added, twelve more fresh
+sub-agents produced four refactorings each of the areas those rules look at (ordered destinations, allotments, balance
+fetching, builtins, the checker's scopes, type inference, parser set-up, LSP dispatch, statement dispatch, value
+arithmetic, reconciler, sources), kept as `benign/r3-<area>-<n>.diff`; `benign/rename-1.diff` (mine) renames every
+private state field the rules refer to. First run: **22 of 48 raised a false alarm** - again all "recognised by one form":
+a closure turned into a method, a loop hoisted into a helper, `a || b` gates, `x := cond1 && cond2; if x`, a table
+of builtin functions returned by a lookup function, `return helper()` instead of `err := helper(); if err != nil`, a
+save/restore snapshot struct, `new(big.Int)` for zero, index loops instead of range, appends done by a local closure.
+Fixes, all structural: path conditions now expand boolean phis (`&&`/`||` stored in a variable); roles are found through
+wrappers (`ReachesWithin`), dispatch through lookup tables and name parameters; the reset of the pending lists may be a
+helper that resets on every path; the reconciler rules range over the reconciler *and* the helpers it hands the pending
+lists to, and accept inline pops at the same end; index facts work for classic counters, across a call (an index
+parameter is in range if every call site passes a loop index - or -1, excluded in the callee - over a slice as long as the
+slice argument) and for slices kept in a variable that closures append to; the sign analysis shares element buckets
+between a function and its closures, gives closure parameters the join of the arguments of their direct calls, and names
+the cell of a once-assigned captured pointer variable; `@world` counts as the unbounded gate; an untouched
+`new(big.Int)` is the constant zero; the private state fields are found by type/role when the name is gone
+(`core/load.go: fieldRoles`). After the fixes **all 89 patches of the corpus are silent** and 99 of the 100 seeded changes
+are still reported by their own property's check.
+
 What still recognises code by name (a rename there gives `undecided`, exit 1 - a false alarm I could not remove without
-giving up the rule): the state fields `programState.{{Senders, Receivers, CachedBalances, CurrentAsset,
-CurrentBalanceQuery, TxMeta, SetAccountsMeta}}`, `CheckResult.{{unboundedSend, Diagnostics, declaredVars, unusedVars,
-varResolution}}`, `State.documents`; exported API names (`RunProgram`, `Parse`, `CheckSource`, `GetErrorsCount`, `MinBigInt`,
+giving up the rule): the struct types `programState`, `CheckResult`, `State` themselves (their private fields fall
+back to a type/role match, see `fieldRoles`); exported API names (`RunProgram`, `Parse`, `CheckSource`, `GetErrorsCount`, `MinBigInt`,
 `Position`, `Range`, the error and diagnostic types); the builtin-name constants. Exported names are part of the library's
 interface; the private fields are the residual risk.
 
